@@ -3,11 +3,13 @@ Spec: Keychain.tla / KeychainTrace.tla.  Executor: harness/kckit.py.
 
 A  TLC exhaustive on Keychain (2 identities, <= 2 keys each, <= 2 certificates per key, every public
    call, a failure at every private-key-store / database step, close / reopen anywhere):
-   A1 any number of failures per history, A2 at most one failure per history but deeper.
+   A0 without failures (deepest), A1 any number of failures per history, A2 at most one failure per history.
    Each deviation flag (the library as found) must break the invariant it is about; vacuity witnesses.
 B  the TLC state graph (every call and every failure point out of every state within the level
    bound) is covered by paths that are replayed on a real KeychainSqlite3 + TpmFile in a fresh scratch
-   directory; after every step the projection through the public Mapping API is compared.
+   directory; after every step the projection through the public Mapping API is compared.  Quick: all
+   transitions out of the states within 1 call of the empty store; thorough: all out of the states within
+   2 calls, and those of the next layer as a seeded sample within a step budget.
 C  random histories (4 identities, up to 6 keys each, ~40 calls, failures, close / reopen) recorded
    from the real code and judged by TLC (KeychainTrace), invariants evaluated on every state.
 
@@ -24,7 +26,6 @@ from harness.kckit import Store, kstr, cstr
 
 INVS = ['MappingViews', 'Containment', 'AtMostOneDefault', 'DefaultWhenPopulated', 'SignerMatchesKey',
         'NoSignerForDeletedKey', 'DeleteCascades', 'RetryAfterFailureOk']
-WITNESSES = ['W_TwoKeysTwoCerts', 'W_NoDefaultButPopulated', 'W_PendingTxn', 'W_GoneAndCache', 'W_OrphanFile']
 DEV_BREAKS = {'DevScope': 'MappingViews', 'DevCacheLoc': 'SignerMatchesKey', 'DevDelKey': 'RetryAfterFailureOk'}
 # invariants that cannot hold on histories of a tree that has the deviation (not evaluated on its traces;
 # the defect itself is reported from the implementation: see Run.step)
@@ -39,7 +40,7 @@ def B(b):
     return 'TRUE' if b else 'FALSE'
 
 
-def consts(ids, maxkeys=2, depth=0, maxlevel=0, maxfaults=0, devs=None):
+def consts(ids, maxkeys=2, depth=0, maxlevel=0, maxfaults=99, devs=None):
     devs = devs or {}
     return {'Ids': ids, 'MaxKeys': maxkeys, 'Depth': depth, 'MaxLevel': maxlevel, 'MaxFaults': maxfaults,
             'DevScope': B(devs.get('DevScope')), 'DevCacheLoc': B(devs.get('DevCacheLoc')),
@@ -185,6 +186,30 @@ def depths(g):
                 dep[e[2]] = dep[x] + 1
                 dq.append(e[2])
     return dep
+
+
+def select_paths(ctx, g, paths, full_depth, budget):
+    """All paths needed to cover the transitions out of states within full_depth calls of the empty
+    store, then a seeded sample of the others while the step budget lasts."""
+    dep = depths(g)
+    must, rest = [], []
+    seen = set()
+    for pth in paths:
+        src, new = pth[0], False
+        for e in pth[1]:
+            if dep[src] <= full_depth and (src, id(e)) not in seen:
+                seen.add((src, id(e)))
+                new = True
+            src = e[2]
+        (must if new else rest).append(pth)
+    ctx.rng.shuffle(rest)
+    budget -= sum(len(p) for _, p in must)
+    for pth in rest:
+        if budget < len(pth[1]):
+            break
+        must.append(pth)
+        budget -= len(pth[1])
+    return must
 
 
 def retry_pairs(g, paths):
@@ -492,7 +517,7 @@ def replay_many(all_steps, procs):
 
 def run(ctx):
     ctx.rule = ('A: TLC exhaustive over all call / failure-point / close-reopen histories up to the depth bound '
-                '(A1 any number of failures, A2 at most one failure but deeper); B: every transition of the TLC graph '
+                '(A0 no failure: depth 6 quick / 8 thorough; A1 any number of failures: depth 4 / 5; A2 at most one failure: depth 7, thorough only); B: every transition of the TLC graph '
                 '(level bound) replayed on a real KeychainSqlite3+TpmFile; C: random histories over 4 identities judged '
                 'by TLC. non-trivial = distinct path / history containing an injected failure, a delete or a close')
     ctx.assumptions = ['PyCryptodome primitives and the sqlite3 module are trusted',
@@ -505,8 +530,9 @@ def run(ctx):
     workers = ctx.pick(4, int(os.environ.get('VERIF_WORKERS', '12')))
 
     if 'A' in ctx.stages:
-        d1, d2 = ctx.pick((4, 5), (6, 7))
-        for name, depth, mf in (('A1 any number of faults', d1, 0), ('A2 at most one fault', d2, 1)):
+        d0, d1, d2 = ctx.pick((6, 4, 5), (8, 5, 7))
+        runs = [('A0 no fault', d0, 0), ('A1 any number of faults', d1, 99)] + ([] if ctx.quick else [('A2 at most one fault', d2, 1)])
+        for name, depth, mf in runs:
             cfgp = os.path.join(tlc.BUILD, 'Keychain_%s_%d.cfg' % (ctx.tier, mf))
             tlc.write_cfg(cfgp, constants=consts('{A, B}', depth=depth, maxfaults=mf), invariants=INVS, symmetry='Perms')
             r = tlc.run('Keychain', cfgp, coverage=True, workers=workers, timeout=3000)
@@ -515,30 +541,27 @@ def run(ctx):
             if r.violated:
                 report(ctx, 'C15/spec/%s' % r.violated, 'TLC: %s violated in Keychain (intended behaviour)' % r.violated,
                        {'kind': 'tlc', 'trace': r.errtrace})
-            for a in ('Step', 'Fail', 'Reopen'):
+            for a in ('Step', 'Fail', 'Reopen') if mf else ('Step', 'Reopen'):
                 if r.ok and r.coverage.get(a, (0, 0))[1] == 0:
                     raise tlc.MachineryError('vacuous: action %s never taken' % a)
         # each deviation flag (library as found) must break the invariant that speaks about it
-        # (-continue makes TLC report every violated invariant of the run)
-        got = set()
-        for fl, depth in ((('DevScope', 'DevDelKey'), 3), (('DevCacheLoc',), 4)):
+        for f, depth in (('DevScope', 3), ('DevCacheLoc', 4), ('DevDelKey', 3)):
             cfgp = os.path.join(tlc.BUILD, 'Keychain_dev_%s.cfg' % ctx.tier)
-            tlc.write_cfg(cfgp, constants=consts('{"A", "B"}', depth=depth, devs={f: True for f in fl}), invariants=INVS)
-            r = tlc.run('Keychain', cfgp, workers=2, heavy=False, extra=['-continue'] if len(fl) > 1 else [])
-            hit = set(i for i in INVS if 'Invariant %s is violated' % i in r.out)
-            for f in fl:
-                if DEV_BREAKS[f] not in hit:
-                    raise tlc.MachineryError('deviation %s does not violate %s (violated: %s)' % (f, DEV_BREAKS[f], sorted(hit)))
-            ctx.note('as-found model with %s: TLC finds violated: %s' % ('+'.join(fl), ', '.join(sorted(hit))))
+            tlc.write_cfg(cfgp, constants=consts('{"A", "B"}', depth=depth, devs={f: True}), invariants=INVS)
+            r = tlc.run('Keychain', cfgp, workers=1, heavy=False)
+            if r.violated != DEV_BREAKS[f]:
+                raise tlc.MachineryError('deviation %s does not violate %s (got %s)' % (f, DEV_BREAKS[f], r.violated))
+            ctx.note('as-found model %s: TLC finds %s violated after %d states' % (f, r.violated, r.distinct))
+        # vacuity witnesses: situations the invariants talk about are reachable (one run, TLCSet registers)
         cfgp = os.path.join(tlc.BUILD, 'Keychain_w_%s.cfg' % ctx.tier)
-        tlc.write_cfg(cfgp, constants=consts('{"A", "B"}', depth=4), invariants=WITNESSES)
-        r = tlc.run('Keychain', cfgp, workers=2, heavy=False, extra=['-continue'])
-        for w in WITNESSES:
-            if 'Invariant %s is violated' % w not in r.out:
-                raise tlc.MachineryError('witness %s not reachable' % w)
+        tlc.write_cfg(cfgp, spec=None, init='WitnessInit', next_='Next', constants=consts('{"A", "B"}', depth=4),
+                      constraints=['WitnessMark'], postcondition='WitnessPost')
+        r = tlc.run('Keychain', cfgp, workers=1, heavy=False)
+        if 'UNREACHED' in r.out or not r.ok:
+            raise tlc.MachineryError('vacuity witness not reachable: %s' % [l for l in r.out.splitlines() if 'UNREACHED' in l])
 
     if 'B' in ctx.stages:
-        lvl = ctx.pick(5, 6)
+        lvl = ctx.pick(4, 6)
         gcfg = os.path.join(tlc.BUILD, 'Keychain_g_%s.cfg' % ctx.tier)
         tlc.write_cfg(gcfg, constants=consts('{"A", "B"}', maxlevel=lvl, devs=flags), constraints=['Bound'], raw='ALIAS DumpAlias')
         g = graph.dump('Keychain', gcfg, workers=1, tag='c15g')
@@ -559,29 +582,12 @@ def run(ctx):
         extra = retry_pairs(g, paths)
         ctx.note('B: +%d paths so that every failed delete is followed by its retry' % len(extra))
         paths = paths + extra
-        if ctx.quick:
-            # quick tier: every transition out of the states within 1 call of the empty store, plus a seeded
-            # sample of the cover paths of the next layer, within a step budget (thorough: everything)
-            dep = depths(g)
-            must, rest = [], []
-            seen = set()
-            for pth in paths:
-                src, new = pth[0], False
-                for e in pth[1]:
-                    if dep[src] <= 1 and (src, id(e)) not in seen:
-                        seen.add((src, id(e)))
-                        new = True
-                    src = e[2]
-                (must if new else rest).append(pth)
-            ctx.rng.shuffle(rest)
-            budget = 3000 - sum(len(p) for _, p in must)
-            for pth in rest:
-                if budget < len(pth[1]):
-                    break
-                must.append(pth)
-                budget -= len(pth[1])
-            ctx.note('B (quick): %d of %d paths replayed: every transition out of states within 1 call + seeded sample of those out of states within 2 calls' % (len(must), len(paths)))
-            paths = must
+        if not ctx.quick:
+            # thorough tier: every transition out of the states within 2 calls, and a seeded sample of the
+            # cover paths of the layer after that, within a step budget
+            npaths = len(paths)
+            paths = select_paths(ctx, g, paths, 2, 100000)
+            ctx.note('B (thorough): %d of %d paths replayed: every transition out of states within 2 calls + seeded sample of those out of states within 3 calls' % (len(paths), npaths))
         all_steps = [make_steps(g, pe, init) for init, pe in paths]
         results = replay_many(all_steps, ctx.pick(6, 12))
         unfinished = 0
@@ -602,7 +608,7 @@ def run(ctx):
             ctx.note('B: %d path(s) cut short at a mismatch' % unfinished)
 
     if 'C' in ctx.stages:
-        ntr, length = ctx.pick((100, 40), (1200, 40))
+        ntr, length = ctx.pick((100, 40), (1000, 40))
         recs = []
         fsc = Findings()
         seeds = [ctx.rng.getrandbits(48) for _ in range(ntr)]
